@@ -88,7 +88,12 @@ func v14Arbitrary(ls []*v14Leaf, prefix string) {
 		switch {
 		case l.keyVal != "":
 		case l.isUint:
-			l.u = uint64(verifrt.IntRange(prefix+"val."+l.tag, 1000, 9999))
+			if verifrt.Param("hival", 0) == 1 {
+				// the upper half of the leaf's type (mtu is a uint16): five digits, one digit count
+				l.u = uint64(verifrt.IntRange(prefix+"val."+l.tag, 32768, 65535))
+			} else {
+				l.u = uint64(verifrt.IntRange(prefix+"val."+l.tag, 1000, 9999))
+			}
 		default:
 			s := verifrt.String(prefix+"val."+l.tag, 1, "ab")
 			verifrt.Assume(len(s) == 1)
